@@ -296,13 +296,16 @@ def worker(inp, outp):
         if spec["kind"] == "ge":
             try:
                 from qiskit_addon_cutting.qpd import QPDBasis
-                probs = []
+                ok = True
                 for name, qs, params in spec["ops"]:
                     if len(qs) == 2:
-                        probs += list(QPDBasis.from_instruction(_build_gate(name, params)).probabilities)
-                rec["probs_nonneg"] = bool(all(p >= 0 for p in probs))
+                        b = QPDBasis.from_instruction(_build_gate(name, params))
+                        w_ = np.abs(np.asarray(b.coeffs, dtype=float))
+                        ok = ok and bool(np.allclose(np.asarray(b.probabilities), w_ / w_.sum(), rtol=1e-12, atol=0)) \
+                            and bool(abs(b.kappa - w_.sum()) <= 1e-12 * w_.sum())
+                rec["probs_model"] = ok
             except Exception:  # noqa: BLE001
-                rec["probs_nonneg"] = True
+                rec["probs_model"] = True
         out["events"].append(rec)
     json.dump(out, open(outp, "w"))
 
@@ -732,6 +735,15 @@ def run_copy(g1, g2, settings=None):
     return r, (before == after), g1
 
 
+def run_group(g1, settings=None):
+    from qiskit_addon_cutting.cut_finding.cutting_actions import disjoint_subcircuit_actions as reg
+    from qiskit_addon_cutting.cut_finding.optimization_settings import OptimizationSettings
+    if settings is not None:
+        g1 = OptimizationSettings(gate_lo=settings[0], wire_lo=settings[1]).get_cut_search_groups()
+    grp = reg.copy(g1).get_group("TwoQubitGates")
+    return dict(groups=g1, names=(None if grp is None else [a.get_name() for a in grp]))
+
+
 class FakeAction:
     def __init__(self, name, groups):
         self._n, self._g = name, groups
@@ -771,6 +783,7 @@ def generate(rng, tier, outdir):
     maxlen = 20 if quick else 60
     n_copy = 150 if quick else 2000
     n_define = 150 if quick else 2000
+    n_group = 60 if quick else 600
 
     # ---- histories ----
     fams = [gen_family(rng, maxlen) for _ in range(n_fam)]
@@ -827,8 +840,8 @@ def generate(rng, tier, outdir):
                         and r["after_probe"] == r["after"]["np"]
                     w.contract("O-rng: default_rng(int seed) is a function of the seed (same stream twice, and in every interpreter) "
                                "and does not touch the global state", ok)
-                if "probs_nonneg" in r:
-                    w.contract("QPDBasis.probabilities >= 0 (smallest_probability >= 0)", r["probs_nonneg"])
+                if "probs_model" in r:
+                    w.contract("QPDBasis.probabilities == |coeffs| / sum|coeffs|, kappa == sum|coeffs| (Process.probabilities)", r["probs_model"])
                 if c["kind"] == "ge" and c["num_samples"] is not None:
                     w.count("finite_gen.np_state_moved", ("exact:" if c.get("exact") else "sampled:") + str(r["before"]["np"] != r["after"]["np"]))
         for o in [by[("f", fi, bi)] for bi in range(len(base))] + [by[("h", fi, hi)] for hi in range(len(hs))]:
@@ -855,6 +868,20 @@ def generate(rng, tier, outdir):
               nontrivial=(r[0] == "ok" and len(r[1]["actions"]) > 0))
         w.count("copy.outcome", r[0])
         w.count("copy.size", len(r[1]["actions"]) if r[0] == "ok" else -1)
+
+    # ---- get_group("TwoQubitGates") on a filtered copy: the action list the search expands with ----
+    for it in range(n_group):
+        if it < 4:
+            st_ = (bool(it & 1), bool(it & 2))
+        else:
+            st_ = (bool(rng.integers(0, 2)), bool(rng.integers(0, 2))) if rng.integers(0, 2) else None
+        g1 = rand_groups(rng)
+        r = run_group(g1, st_)
+        w.add("group", "chk_group",
+              ((Raw("None") if st_ is None else Raw(f"(Some ({coq(st_[0])}, {coq(st_[1])}))")), coq_groups(r["groups"]),
+               (Raw("None") if r["names"] is None else Raw("(Some " + coq([GN(x) for x in r["names"]]) + ")"))),
+              dict(kind="group", settings=st_, groups=r["groups"], names=r["names"]), nontrivial=(r["names"] is not None))
+        w.count("group.size", -1 if r["names"] is None else len(r["names"]))
 
     # ---- define_action sequences on a fresh container ----
     names = [None, "A", "B", "C", "CutTwoQubitGate", ""]
@@ -898,7 +925,8 @@ def generate(rng, tier, outdir):
              "optional sampled generation as interference; random reseeding/advancing of numpy's and Python's global generators before each call; "
              "every distinct call alone in a fresh interpreter (half of them with a drawn PYTHONHASHSEED). "
              "distinct = distinct call sequence; non-trivial = at least two calls the property speaks about. "
-             "copy/define: random group lists (None, [], known, unknown) on the real registry / random action sequences with duplicate names.",
+             "group: get_group('TwoQubitGates') of copies under the four option settings and random group lists vs ProcessCF.two_qubit_group and "
+             "the search model's search_actions. copy/define: random group lists (None, [], known, unknown) on the real registry / random action sequences with duplicate names.",
         extra=dict(extra=dict(interpreters=len(jobs), calls_executed=n_calls)))
 
 
@@ -949,6 +977,10 @@ def rerun(case):
         return case
     if case["kind"] == "define":
         case["impl"] = run_define(case["actions"])
+        return case
+    if case["kind"] == "group":
+        r = run_group(case["groups"], tuple(case["settings"]) if case["settings"] else None)
+        case["names"] = r["names"]
         return case
     events = [dict(perturb=e["perturb"], call=e["call"]) for e in case["events"]]
     # the history once (same PYTHONHASHSEED and instance-reuse mode as recorded); every distinct call in THREE fresh
